@@ -24,7 +24,8 @@ from vp import env
 
 LEVEL = "exploration"
 PER = 10
-POOL = [1_500_000_000, 1_500_000_000, 1_600_000_000]  # archive-like timestamps shared by several files
+POOL = [1_500_000_000, 1_500_000_000, 1_600_000_000,   # archive-like timestamps shared by several files
+        2_000_000_000]   # ... and one from a machine whose clock runs ahead (mtime later than any ctime here)
 OPS_FILE = ["write_same", "write_other", "utime_restore", "utime_pool", "replace_over", "replace_keep_times",
             "copy2_over", "touch_now"]
 OPS_DIR = ["member_write_same", "member_write_other", "member_nested_write", "member_add", "member_remove",
@@ -61,7 +62,7 @@ class World:
         self.sib = []
         for i, ts in enumerate(POOL):
             p = root / f"sib{i}.txt"
-            p.write_text(f"S{i}" + "s" * (2 if i < 2 else 5))  # sib0/sib1: same size, same mtime, other content
+            p.write_text(f"S{i}" + "s" * (2 if i < 2 else 5 + i))  # sib0/sib1: same size, same mtime, other content
             os.utime(p, ns=(ts * 10**9, ts * 10**9))
             self.sib.append(p)
         self.last_hash_mtime = {}
@@ -100,8 +101,9 @@ class World:
             if t is not None:
                 os.utime(p, ns=(t, t))
                 explicit_time = True
-        elif op == "utime_pool":
-            t = POOL[rng_pick % len(POOL)] * 10**9
+        elif op.startswith("utime_pool"):
+            idx = int(op.split("@")[1]) if "@" in op else rng_pick % len(POOL)
+            t = POOL[idx] * 10**9
             os.utime(f, ns=(t, t))
             explicit_time = True
         elif op == "touch_now":
@@ -238,11 +240,25 @@ def run_history(hist, wctx):
     return out
 
 
+def directed_histories():
+    """the classic stale-key shapes, for every timestamp of the pool (past and ahead-of-clock): give the file
+    an explicit mtime, hash, change the content (same / other size, in place / by replacement), give it the
+    same mtime again, hash"""
+    out = []
+    for i in range(len(POOL)):
+        for change in ("write_same", "write_other", "replace_over", "replace_keep_times"):
+            for again in (f"utime_pool@{i}", "utime_restore"):
+                out.append({"target": "file", "ops": [f"utime_pool@{i}", "hash", change, again, "hash"], "child_at": None,
+                            "e2e": False, "salt": 17 * i + len(change)})
+    return out
+
+
 def batch(case, wctx):
     out = []
     keep = os.environ.get("PYDRA_HASH_CACHE")
+    directed = directed_histories()
     for i in range(case["lo"], case["hi"]):
-        hist = gen_history(wctx.rng(f"h{i}"), wctx.tier != "quick")
+        hist = directed[i] if i < len(directed) else gen_history(wctx.rng(f"h{i}"), wctx.tier != "quick")
         try:
             out.extend(run_history(hist, wctx))
         except env.HarnessError as e:
@@ -256,7 +272,8 @@ def batch(case, wctx):
 def run(ctx):
     quick = ctx.tier == "quick"
     n = 320 if quick else 6000
-    ctx.rule = ("histories of 2-6 (thorough 8) file operations on a file or a directory input interleaved with hash "
+    ctx.rule = ("32 directed stale-key histories (explicit mtime from the pool incl. one ahead of the clock, hash, change, same mtime again, hash) + "
+                "random histories of 2-6 (thorough 8) file operations on a file or a directory input interleaved with hash "
                 "points (shared persistent cache vs fresh cache, ~4% with one hash point in a fresh child process, 30% "
                 "with an end-to-end task run before/after); non-trivial = >= 2 hash points that saw >= 2 different "
                 "contents; distinct = distinct histories")
